@@ -704,16 +704,45 @@ func (tg *txnGen) swap() []TOp {
 		if g.Chance(0.5) {
 			return []TOp{{Kind: "update", Table: t.Name, Where: byU(a), Row: ra}, {Kind: "update", Table: t.Name, Where: byU(b), Row: rb}}
 		}
-		if len(t.Indexes) >= 2 && g.Chance(0.4) {
-			// delete a; insert a row taking a's value on one index and b's value on another
+		// two indexes that share no column, in either order of declaration
+		var pairs [][2]int
+		for i := range t.Indexes {
+			for j := range t.Indexes {
+				disjoint := i != j
+				for _, ci := range t.Indexes[i] {
+					for _, cj := range t.Indexes[j] {
+						if ci == cj {
+							disjoint = false
+						}
+					}
+				}
+				if disjoint {
+					pairs = append(pairs, [2]int{i, j})
+				}
+			}
+		}
+		if len(pairs) > 0 && g.Chance(0.6) {
+			// delete a (or move it off its value); insert a row taking a's value on one index and b's value on another:
+			// the conflict with the departed row does not count, the one with b does
+			pr := pairs[g.Intn(len(pairs))]
 			nr := map[string]val.Val{}
-			for _, c := range t.Indexes[0] {
+			for _, c := range t.Indexes[pr[0]] {
 				nr[c] = tg.state[t.Name][a][c]
 			}
-			for _, c := range t.Indexes[1] {
+			for _, c := range t.Indexes[pr[1]] {
 				nr[c] = tg.state[t.Name][b][c]
 			}
-			return []TOp{{Kind: "delete", Table: t.Name, Where: byU(a)}, {Kind: "insert", Table: t.Name, UUID: tg.fresh(), Row: nr}}
+			first := TOp{Kind: "delete", Table: t.Name, Where: byU(a)}
+			if g.Chance(0.3) {
+				moved := map[string]val.Val{}
+				for _, c := range t.Indexes[pr[0]] {
+					if tc := t.Col(c); tc != nil {
+						moved[c] = tg.value(*tc, nil)
+					}
+				}
+				first = TOp{Kind: "update", Table: t.Name, Where: byU(a), Row: moved}
+			}
+			return []TOp{first, {Kind: "insert", Table: t.Name, UUID: tg.fresh(), Row: nr}}
 		}
 		full := map[string]val.Val{}
 		for c, v := range tg.state[t.Name][a] {
